@@ -19,7 +19,7 @@ from sa.callgraph import CallGraph  # noqa: E402
 from sa import core  # noqa: E402
 
 CONFIGS_QUICK = [('gnu++17', ())]
-CONFIGS_THOROUGH = [('gnu++17', ()), ('gnu++11', ()), ('gnu++17', ('HAS_STRPTIME=0',))]
+CONFIGS_THOROUGH = [('gnu++17', ()), ('gnu++11', ())]   # -DHAS_STRPTIME=0 does not compile against glibc (ambiguous strptime)
 
 
 def run_property(prop, tier, only=None):
@@ -51,12 +51,73 @@ def run_property(prop, tier, only=None):
     return mod, ctxs
 
 
+def variant_sweep(prop):
+    """Thorough tier: every hand-made variant and every kept seeded change for this property is
+    applied to a scratch copy of /repo's current working tree (outside /repo and /verif); the
+    quick check must report a violation on the breaking ones and stay silent on the
+    behaviour-preserving ones.  A mismatch means the checker is broken (exit 2), not cctz."""
+    import glob
+    import re
+    import shutil
+    import subprocess
+    import tempfile
+    from concurrent.futures import ThreadPoolExecutor
+    from sa.frontend import REPO
+    from sa import variants as VV
+    jobs = []
+    for (p_, name, expect, file_, pat, repl) in VV.V:
+        if p_ == prop:
+            jobs.append(('variant:' + name, expect, ('regex', file_, pat, repl)))
+    for d in sorted(glob.glob(os.path.join(VERIF, 'seeded', prop + '*'))):
+        if os.path.exists(os.path.join(d, 'patch.diff')):
+            jobs.append(('seeded:' + os.path.basename(d), 'violation', ('patch', os.path.join(d, 'patch.diff'))))
+
+    def one(job):
+        name, expect, how = job
+        scratch = tempfile.mkdtemp(prefix='verif-scratch-')
+        try:
+            for sub in ('include', 'src', 'CMakeLists.txt'):
+                src = os.path.join(REPO, sub)
+                dst = os.path.join(scratch, 'repo', sub)
+                if os.path.isdir(src):
+                    shutil.copytree(src, dst)
+                else:
+                    os.makedirs(os.path.dirname(dst), exist_ok=True)
+                    shutil.copy(src, dst)
+            root = os.path.join(scratch, 'repo')
+            if how[0] == 'regex':
+                fp = os.path.join(root, how[1])
+                txt = open(fp).read()
+                if len(re.findall(how[2], txt)) != 1:
+                    return (name, expect, 'skipped', 'pattern does not match the current tree exactly once')
+                open(fp, 'w').write(re.sub(how[2], lambda m: how[3], txt, count=1))
+                cc = subprocess.run(['clang++', '-std=gnu++17', '-fsyntax-only', '-I' + os.path.join(root, 'include'),
+                                     '-I' + os.path.join(root, 'src'), '-x', 'c++', fp], capture_output=True, text=True)
+                if cc.returncode != 0:
+                    return (name, expect, 'skipped', 'variant does not compile on the current tree')
+            else:
+                pr = subprocess.run(['patch', '-p1', '-s', '-d', root, '-i', how[1]], capture_output=True, text=True)
+                if pr.returncode != 0:
+                    return (name, expect, 'skipped', 'patch does not apply to the current tree')
+            env = dict(os.environ, VERIF_REPO=root, VERIF_WORK=os.path.join(scratch, 'work'))
+            r = subprocess.run([sys.executable, os.path.abspath(__file__), prop, '--tier', 'quick', '--scratch'],
+                               capture_output=True, text=True, env=env, cwd=VERIF)
+            got = 'violation' if r.returncode == 1 else 'silent' if r.returncode == 0 else 'broken'
+            rules = sorted(set(l.split('rule ')[1].split(':')[0] for l in r.stdout.splitlines() if ': rule ' in l))
+            return (name, expect, got, ','.join(rules))
+        finally:
+            shutil.rmtree(scratch, ignore_errors=True)
+    with ThreadPoolExecutor(max_workers=8) as ex:
+        return list(ex.map(one, jobs))
+
+
 def main():
     ap = argparse.ArgumentParser()
     ap.add_argument('prop', nargs='?')
     ap.add_argument('--tier', default=os.environ.get('VERIF_TIER', 'quick'))
     ap.add_argument('--replay')
     ap.add_argument('--keep', action='store_true')
+    ap.add_argument('--scratch', action='store_true', help='run against VERIF_REPO without writing evidence')
     a = ap.parse_args()
     seed = int(os.environ.get('VERIF_SEED', '0') or 0)
     t0 = time.time()
@@ -94,7 +155,8 @@ def main():
                 known_hits.append((o, k))
             else:
                 viol.append((o, c))
-    os.makedirs(os.path.join(core.EVID, 'replay'), exist_ok=True)
+    if not a.scratch:
+        os.makedirs(os.path.join(core.EVID, 'replay'), exist_ok=True)
     for (o, k) in known_hits:
         print('KNOWN-FINDING: property=%s %s [%s] %s: %s' % (prop, k.get('id', ''), o['rule'], o['where'], k.get('text', o['detail'])))
     for i, (o, c) in enumerate(viol):
@@ -102,22 +164,40 @@ def main():
         for st in o.get('path') or []:
             print('    via %s at %s' % (st.get('function'), st.get('site')))
         rp = os.path.join(core.EVID, 'replay', '%s-%d.json' % (prop, i))
+        if a.scratch:
+            print('VIOLATION property=%s replay=(scratch run)' % prop)
+            continue
         with open(rp, 'w') as f:
             json.dump(dict(property=prop, rule=o['rule'], construct=o.get('construct'), instance=o['instance'],
                            where=o['where'], why=o['detail'], path=o.get('path'), config=c.config), f, indent=1)
         print('VIOLATION property=%s replay=%s' % (prop, rp))
-    if not a.replay:
+    sweep = []
+    sweep_bad = []
+    if tier == 'thorough' and not a.replay and not a.scratch and not viol:
+        sweep = variant_sweep(prop)
+        for (name, expect, got, info) in sweep:
+            if got in ('skipped',):
+                continue
+            if got != expect:
+                sweep_bad.append((name, expect, got, info))
+            print('variant %-45s expect=%-9s got=%-9s %s' % (name, expect, got, info))
+    if not a.replay and not a.scratch:
         n = sum(len(c.obligations) for c in ctxs)
         d = sum(1 for c in ctxs for o in c.obligations if o['status'] == 'ok')
         core.write_evidence(prop, tier, seed, ctxs, time.time() - t0, len(viol),
                             [dict(id=k.get('id'), rule=o['rule'], construct=o.get('construct'), where=o['where'])
                              for (o, k) in known_hits],
                             getattr(mod, 'EXPLANATION', ''), getattr(mod, 'TECHNIQUE', ''),
-                            extra=dict(stats={c.config: c.stats for c in ctxs}))
+                            extra=dict(stats={c.config: c.stats for c in ctxs},
+                                       variant_sweep=[dict(name=n_, expect=e_, got=g_, rules=i_) for (n_, e_, g_, i_) in sweep]))
         print('%s %s: %d rule instances, %d hold, %d known finding(s), %d violation(s) [%.1fs]' % (
             prop, tier, n, d, len(known_hits), len(viol), time.time() - t0))
     if viol:
         return 1
+    if sweep_bad:
+        print('ANALYSIS-BROKEN property=%s: the rules did not behave as required on %d variant(s): %s' % (
+            prop, len(sweep_bad), '; '.join('%s expected %s got %s' % (n_, e_, g_) for (n_, e_, g_, i_) in sweep_bad)))
+        return 2
     broken = [getattr(c, 'broken', None) for c in ctxs if getattr(c, 'broken', None)]
     if broken:
         print('ANALYSIS-BROKEN property=%s: %s' % (prop, broken[0]))
